@@ -832,8 +832,9 @@ def explore(harness, cfg, caps, hname="?"):
   max_paths = caps.get("max_paths", 5000)
   max_viol = caps.get("max_violations", 3)
   wit_every = caps.get("witness_every", 1)
-  t0 = time.time()
-  deadline = t0 + caps.get("task_s", 3600)
+  # the task budget is CPU time of this worker (a loaded machine must not turn a pass into "inconclusive");
+  # the parent enforces a generous wall limit on top of it (cli.run_tasks)
+  deadline = time.process_time() + caps.get("task_s", 3600)
   while True:
     ctx = Ctx(prefix, stats, caps)
     Ctx.cur = ctx
@@ -992,7 +993,7 @@ def explore(harness, cfg, caps, hname="?"):
     if stats.paths >= max_paths:
       stats.inconclusive.append({"clause": "engine", "why": "path cap %d reached" % max_paths})
       break
-    if time.time() > deadline:
-      stats.inconclusive.append({"clause": "engine", "why": "task time cap reached after %d paths" % stats.paths})
+    if time.process_time() > deadline:
+      stats.inconclusive.append({"clause": "engine", "why": "task CPU-time cap reached after %d paths" % stats.paths})
       break
   return stats
